@@ -2019,7 +2019,8 @@ func (g *Gen) keepPrivate(preHeaps map[string]string, st *State, at ssa.Instruct
 			callee := callees[0]
 			anyReachPkg := func(owner string) bool {
 				for _, c := range callees {
-					if g.prog.mayReachPackage(c, owner) {
+					// a reflective decoder writes fields of packages whose code it never calls
+					if g.prog.mayReachPackage(c, owner) || g.prog.reflectiveWriter(c) {
 						return true
 					}
 				}
